@@ -52,8 +52,8 @@ func (h *recHandler) handle(key, data []byte) (int, error) {
 	return h.decide(k, key, data)
 }
 
-func (h *recHandler) HandleArrayValue(data []byte) (int, error)       { return h.handle(nil, data) }
-func (h *recHandler) HandleObjectValue(k, data []byte) (int, error)   { return h.handle(k, data) }
+func (h *recHandler) HandleArrayValue(data []byte) (int, error)     { return h.handle(nil, data) }
+func (h *recHandler) HandleObjectValue(k, data []byte) (int, error) { return h.handle(k, data) }
 
 // traverse runs the traversal of the given kind ('[' or '{').
 func traverse(kind byte, doc []byte, h *recHandler, buf *rjson.Buffer) (int, error) {
